@@ -7,11 +7,13 @@ Open Scope Z_scope.
 
 (* Every trace of observations that the model of Handle, of the six access
    paths and of Loop.switch accepts satisfies the property: per handle, a
-   loading access loads iff no access happened since the last clear (or
-   ever), every access returns the object of that one load, get() never
-   loads, cached predicts whether the next access loads, and a loop switch is
-   (optional clear of the handle left) + (optional clear of the target) + an
-   access of the target. No bound on trace length or number of handles. *)
+   loading access loads iff no successful access happened since the last
+   clear (or ever), every access returns the object of that one load, get()
+   never loads, cached predicts whether the next access loads, a loop switch
+   is (optional clear of the handle left) + (optional clear of the target) +
+   an access of the target, and a load() that raises reaches the caller and
+   leaves the handle unloaded (the next access loads again). No bound on
+   trace length or number of handles; which loads raise is an input. *)
 Theorem C12_load_at_most_once :
   forall tr : trace, wf_b tr = true -> known_b tr = false ->
                      accepts tr = true -> holds tr.
@@ -19,50 +21,58 @@ Proof. intros tr _ _. exact (accepts_holds tr). Qed.
 Print Assumptions C12_load_at_most_once.
 
 (* reading of [holds] on raw observations (so that the boolean spec machine
-   is not itself taken on trust): once a handle has been accessed, and as
-   long as nothing clears it -- neither clear() nor a switch with the
-   matching clear flag -- every observation of it reports the same load
-   count: no further load, through whatever path *)
+   is not itself taken on trust): once a handle has been loaded, and as long
+   as nothing clears it -- neither clear() nor a switch with the matching
+   clear flag -- every observation of it reports the same count of load
+   attempts and no error: no further load, through whatever path *)
 Theorem C12_loads_do_not_move_between_clears :
   forall tr t t' h n,
     spec_run t tr = Some t' -> no_clear h (sp_cur t) tr = true ->
     sget (sp_h t) h = (n, true) ->
-    forall o ob, In (o, ob) tr -> touches h o = true -> o_loads ob = n.
+    forall o ob, In (o, ob) tr -> touches h o = true -> o_loads ob = n /\ o_exc ob = false.
 Proof.
   intros tr t t' h n H1 H2 H3.
   exact (proj2 (loads_stable_when_loaded tr t t' h n H1 H2 H3)).
 Qed.
 Print Assumptions C12_loads_do_not_move_between_clears.
 
-(* ... and the first loading access after a clear loads exactly once *)
+(* ... and the first loading access after a clear (or after a failed load)
+   makes exactly one load attempt; it raises iff load() does, and the handle
+   is loaded afterwards iff it did not *)
 Theorem C12_first_access_after_clear_loads :
-  forall t h p ob t' n,
-    spec_step t (OAccess h p) ob = Some t' -> loading p = true ->
+  forall t h p fail ob t' n,
+    spec_step t (OAccess h p fail) ob = Some t' -> loading p = true ->
     sget (sp_h t) h = (n, false) ->
-    o_loads ob = n + 1 /\ sget (sp_h t') h = (n + 1, true).
+    o_loads ob = n + 1 /\ o_exc ob = fail /\ sget (sp_h t') h = (n + 1, negb fail).
 Proof. exact first_access_loads. Qed.
 Print Assumptions C12_first_access_after_clear_loads.
 
 (* non-vacuity: a concrete trace meets the premises; a reloading
-   implementation's trace and a switch that forgets to clear are rejected *)
+   implementation's trace, a switch that forgets to clear and a handle left
+   "cached" by a load that raised are rejected *)
+Definition ok n := {| o_loads := n; o_flag := true; o_exc := false |}.
 Definition ex_ok : trace :=
-  [ (OCached 1, {| o_loads := 0; o_flag := false |});
-    (OAccess 1 PItem, {| o_loads := 1; o_flag := true |});
-    (OAccess 1 PSAttr, {| o_loads := 1; o_flag := true |});
-    (OSwitch 2 true false, {| o_loads := 1; o_flag := true |});
-    (OSwitch 1 true true, {| o_loads := 2; o_flag := true |});
-    (OCached 2, {| o_loads := 1; o_flag := false |});
-    (OCached 1, {| o_loads := 2; o_flag := true |});
-    (OClear 1, {| o_loads := 2; o_flag := true |});
-    (OAccess 1 PGet, {| o_loads := 2; o_flag := true |});
-    (OAccess 1 PCall, {| o_loads := 3; o_flag := true |}) ].
+  [ (OCached 1, {| o_loads := 0; o_flag := false; o_exc := false |});
+    (OAccess 1 PItem true, {| o_loads := 1; o_flag := true; o_exc := true |});
+    (OCached 1, {| o_loads := 1; o_flag := false; o_exc := false |});
+    (OAccess 1 PItem false, ok 2);
+    (OAccess 1 PSAttr true, ok 2);
+    (OSwitch 2 true false false, ok 1);
+    (OSwitch 1 true true false, ok 3);
+    (OCached 2, {| o_loads := 1; o_flag := false; o_exc := false |});
+    (OCached 1, ok 3);
+    (OClear 1, ok 3);
+    (OAccess 1 PGet false, ok 3);
+    (OAccess 1 PCall false, ok 4) ].
 Example C12_nonvacuous : wf_b ex_ok = true /\ known_b ex_ok = false /\ accepts ex_ok = true.
 Proof. vm_compute. auto. Qed.
 Example C12_reload_rejected :
-  holds_b [ (OAccess 1 PCall, {| o_loads := 1; o_flag := true |});
-            (OAccess 1 PItem, {| o_loads := 2; o_flag := true |}) ] = false.
+  holds_b [ (OAccess 1 PCall false, ok 1); (OAccess 1 PItem false, ok 2) ] = false.
 Proof. vm_compute. reflexivity. Qed.
 Example C12_switch_without_clear_rejected :
-  holds_b [ (OSwitch 1 false false, {| o_loads := 1; o_flag := true |});
-            (OSwitch 1 false true, {| o_loads := 1; o_flag := true |}) ] = false.
+  holds_b [ (OSwitch 1 false false false, ok 1); (OSwitch 1 false true false, ok 1) ] = false.
+Proof. vm_compute. reflexivity. Qed.
+Example C12_cached_after_failed_load_rejected :
+  holds_b [ (OAccess 1 PCall true, {| o_loads := 1; o_flag := true; o_exc := true |});
+            (OCached 1, ok 1) ] = false.
 Proof. vm_compute. reflexivity. Qed.
